@@ -432,16 +432,16 @@ Definition nitem (seg : lroot) : item :=
   | RS s ss :: r => ISubst s ss (fst (take_ws r))
   | _ => IEmpty
   end.
-(* split the root at its commas *)
-Fixpoint segments (l : lroot) (cur : lroot) : list lroot :=
+(* split the root at its commas (the result is never empty) *)
+Fixpoint segments (l : lroot) : list lroot :=
   match l with
-  | [] => [rev cur]
-  | RC :: r => rev cur :: segments r []
-  | x :: r => segments r (x :: cur)
+  | [] => [[]]
+  | RC :: r => [] :: segments r
+  | x :: r => match segments r with s :: ss => (x :: s) :: ss | [] => [[x]] end
   end.
 Definition nseg (seg : lroot) : str * item := let '(w, rest) := take_ws seg in (w, nitem rest).
 Definition norm (l : lroot) : rfield :=
-  match map nseg (segments l []) with
+  match map nseg (segments l) with
   | [] => mk_rfield [] IEmpty []
   | (w, i) :: rest => mk_rfield w i rest
   end.
